@@ -506,6 +506,9 @@ def guard_axioms():
 class GuardContract(FunctionContract):
     prop = PROP
     relpath = REL
+    # if_ / else_ are generator functions behind @contextmanager: the contracts follow the with-protocol (the part before
+    # the yield runs on entry, the part after it on exit; on_yield marks the block)
+    accepted_decorators = ("contextmanager",)
     axioms = property(lambda self: tuple(base_axioms() + guard_axioms()))
 
     def m_parse(self, ctx, it, args, kw):
